@@ -5,7 +5,7 @@ from odata_query import ast
 from odata_query.roundtrip import AstToODataVisitor
 from odata_query.grammar import ODataLexer, ODataParser
 
-PROP_MODS = ["ODataVerif.Tie.PrinterPrecedence", "ODataVerif.Tie.ParserTables", "ODataVerif.Props.C13"]
+PROP_MODS = ["ODataVerif.Tie.PrinterPrecedence", "ODataVerif.Tie.ParserTables", "ODataVerif.Props.C13", "ODataVerif.Props.C13Roundtrip"]
 
 def real_render(node):
     try:
